@@ -1,4 +1,4 @@
-PENDING.update({k: "check not built yet at this commit (planned, see DESIGN.md section 5)" for k in ["C07","C10","C18","C20"]})
+PENDING.update({k: "check not built yet at this commit (planned, see DESIGN.md section 5)" for k in ["C07","C10","C18"]})
 check("C01", "exploration",
   "Seeded search: every run executes one (generated variant, operation, variables, resolver-outcome plan, release order) of servers generated at check time from /repo's templates, with each resolver/directive call parked and released by the scheduler, and compares data (key order kept) and the error multiset with an independent reference executor. Sampling, not proof; right level because the property is a refinement claim over an unbounded input space.",
   "Probe schemas instead of random schemas; reference executor + plan are the trusted model (parameters P1/P2 documented in DESIGN 3.5); gqlgen-authored messages matched by path only.",
@@ -35,3 +35,7 @@ check("C11", "exploration",
   "Whole websocket sessions (real gorilla client and gqlgen transport over a pipe, fake clock) are driven by seeded sequences of client messages, server-side emissions, timer advances, write completions/failures and cancellations; a per-connection monitor over the server's frame log, the resolver events and the operation contexts checks the protocol rules of the statement, plus goroutine/close-callback accounting at the end; -race binary, transport mutexes made durable in the scratch copy.",
   "Unique ids per connection; message texts and close codes are not asserted; net/http's own connection handling is outside the simulation.",
   "deterministic simulation: session search over message/emission/timer interleavings with a protocol monitor", "5.11")
+check("C20", "fault_enumeration",
+  "Seeded _entities requests over a federation probe generated at check time (single/alternative/nested keys, @requires, batch resolvers) with single and paired per-representation faults; every entity resolver call parks and completes in a tape-chosen order (incl. bursts under the race detector); element i must equal the echo computed from representation i alone or be null when it was faulted, neighbours must be untouched, RecoverFunc once per panic. Three genuine batch-resolver defects are recorded as known findings.",
+  "Echo resolvers are harness code on both sides of the comparison; explicit/computed requires variants not generated.",
+  "deterministic simulation: per-representation fault injection + completion-order search with an echo oracle", "5.20")
